@@ -90,6 +90,22 @@ impl<T> RawTable<T> {
     {
         unimplemented!()
     }
+    // contract of RawTable::find = find_inner's soundness clause proved in unit ctrl: only a FULL bucket of this
+    // table is returned (which one, and when None, is the business of units ctrl / assoc)
+    #[verifier::external_body]
+    pub fn find(&self, hash: u64, eq: EqT) -> (r: Option<Bucket<T>>)
+        requires self.table.shape(), self.table.mirrored(),
+        ensures r matches Some(b) ==> 0 <= b.index@ < self.table.nb() && self.table.ctrl@[b.index@] < 0x80u8,
+    {
+        unimplemented!()
+    }
+    // R19d: Bucket::as_ref on a bucket of this table: a reference to its element; the bucket must be FULL
+    #[verifier::external_body]
+    pub fn elem_ref<'a>(&'a self, bucket: &Bucket<T>) -> (r: &'a T)
+        requires 0 <= bucket.index@ < self.table.nb(), self.table.ctrl@[bucket.index@] < 0x80u8,
+    {
+        unimplemented!()
+    }
     // RawTable::bucket_index: pointer difference; the bucket must be one of this table's
     #[verifier::external_body]
     pub fn bucket_index(&self, bucket: &Bucket<T>) -> (r: usize)
@@ -113,6 +129,7 @@ impl<T> RawTable<T> {
         self.table.ctrl_get(index).0 < 0x80
     }
 }
+pub struct EqT { pub g: Ghost<int> }
 impl<T> Bucket<T> {
     // Bucket::read / Bucket::drop: the element itself is not modelled in this unit (R: drop ledger)
     #[verifier::external_body]
